@@ -60,6 +60,9 @@ def generate(rng, tier):
     return cases
 
 
+QN = 48
+
+
 def qlit(m, e):
     return "(dy %s %s)" % (C.z(m), C.z(e))
 
@@ -69,7 +72,7 @@ def coq_term(case, out):
         return None
     data, e = case["data"], case["e"]
     m, n, p = len(data), len(data[0]), len(data[0][0])
-    parts = []
+    parts, qparts = [], []
     for k in range(p):
         chains = "[" + "; ".join("[" + "; ".join(qlit(data[c][s][k], e) for s in range(n)) + "]" for c in range(m)) + "]"
         parts.append("c13_eval %s" % chains)
@@ -81,6 +84,7 @@ def coq_term(case, out):
             inds.append("(%d, %d)" % (int(x[0] != prev[0]), int(x != prev)))
             prev = x
         parts.append("chain_p_bits [%s]" % "; ".join(inds))
+        qparts.append("chain_p_q [%s]" % "; ".join(inds[:QN]))       # denominators grow as 100^k: a prefix only
     steps = []
     prev = [[0] * p for _ in range(m)]
     for s in range(n):
@@ -88,6 +92,8 @@ def coq_term(case, out):
         prev = [data[c][s] for c in range(m)]
         steps.append("[" + "; ".join(str(b) for b in row) + "]")
     parts.append("multi_p_bits [%s]" % "; ".join(steps))
+    parts += qparts                                     # the exact-arithmetic recurrence the range theorems speak about
+    parts.append("multi_p_q [%s]" % "; ".join(steps[:max(1, QN // m)]))
     return " ++ ".join("(%s)" % q for q in parts)
 
 
@@ -113,7 +119,9 @@ def unpack(case, model):
         cp.append(model[pos:pos + n])
         pos += n
     mp = model[pos:pos + n]
-    return params, cp, mp
+    pos += n
+    pq = [q() for _ in range(m + 1)]                    # exact EMA: one final value per chain, then the multi-chain one
+    return params, cp, mp, pq
 
 
 def close(x, ref, tol_abs):
@@ -128,10 +136,17 @@ def compare(case, out, model):
     return check(case, out, *unpack(case, model))
 
 
-def check(case, out, params, cp, mp):
+def check(case, out, params, cp, mp, pq):
     data = case["data"]
     m, n, p = len(data), len(data[0]), len(data[0][0])
     growth = Fraction(16 * n) * Fraction(EPS)
+    for c in range(m):
+        got = C.f32_exact(out["chains"][c]["p"][min(n, QN) - 1])
+        if abs(got - pq[c]) > Fraction(1, 2 ** 18):
+            return "chain %d: p_accept after %d updates %s, exact-arithmetic EMA (Model.Tracker.chain_pQ) %s" % (c, min(n, QN), float(got), float(pq[c]))
+    km = min(n, max(1, QN // m))
+    if abs(C.f32_exact(out["multi_p"][km - 1]) - pq[m]) > Fraction(1, 2 ** 18):
+        return "multi-chain p_accept after %d steps %s, exact-arithmetic EMA (multi_pQ) %s" % (km, float(C.f32_exact(out["multi_p"][km - 1])), float(pq[m]))
     for c in range(m):
         if out["chains"][c]["n"] != n:
             return "chain %d: tracker count %d after %d updates" % (c, out["chains"][c]["n"], n)
